@@ -153,8 +153,11 @@ impl<'v> StarlarkValue<'v> for Range {
 
     fn at(&self, index: Value, heap: Heap<'v>) -> crate::Result<Value<'v>> {
         let index = convert_index(index, self.length()?)?;
-        // Must not overflow if `length` is computed correctly
-        Ok(heap.alloc(self.start + self.step.get() * index))
+        // The element fits `i32` if `length` is computed correctly, but `step * index` need not:
+        // `range(-2147483648, 2147483647, 3)[-1]`.
+        Ok(heap.alloc(
+            (self.start as i64 + self.step.get() as i64 * index as i64) as i32,
+        ))
     }
 
     fn equals(&self, other: Value) -> crate::Result<bool> {
